@@ -509,6 +509,12 @@ def order_case(draw, tier="quick"):
     nmax = 4 if tier == "quick" else draw(st.sampled_from([4, 4, 5, 6, 9]))
     if fam == "janus":
         nmax = 4            # default scale_pos=1e-16 holds |x| < 922 in int64
+    if fam == "whfast" and cfg_get(cfg, "ri_whfast.coordinates") == "barycentric":
+        # the Kepler step orbits the barycentre with the total mass: the perturbation is the offset of the barycentre
+        # from the star, sum m_i a_i / M, in units of the innermost orbit.  With 5-6 planets of 1e-3 out to a=850 the
+        # offset is ~1 and the scheme is nowhere near its asymptotic regime even at P/512 (measured errors O(10)..
+        # O(100) of the system size, still decreasing): outside "perturbations to the Keplerian orbits are small".
+        nmax = 4            # offset <= 0.03
     tp = draw(st.sampled_from(TP_CHOICES))
     sysd = draw(regime_system(regime, nmax))
     backward = draw(st.sampled_from([False, False, True]))
